@@ -185,6 +185,30 @@ CHECKS: dict[str, tuple[str, str, str, str]] = {
         "Trusted: ast, sa/tab.py.",
         "DESIGN.md §3 C09",
     ),
+    "C15": (
+        "effect analysis over the whole-program call graph (callees resolved by mypy as a library) with argument provenance",
+        "For every click command the set of file-system mutators reachable in the call graph (dynamic dispatch expanded"
+        " to all overrides; attrs hooks, click callbacks, properties and map(container) included; open modes folded)"
+        " is a subset of the documented set: none for lint / lint-file / supported-licenses / --help / --version, the"
+        " click.File bound to --output for spdx, the one open(path,'w') for annotate, write_text+unlink for"
+        " convert-dep5, the four effects on `destination` for download; every spawned process is a literal read-only"
+        " VCS query; the written paths derive from the named files / covered children / their .license siblings. This"
+        " decides 'which code can touch the tree' for all inputs; OS-level metadata effects and the explicitly named"
+        " symlink case are not decided.",
+        "Trusted: ast, mypy's resolution, table T1, the read-only VCS query whitelist. Unresolved calls are listed in the evidence (floor 25).",
+        "DESIGN.md §3 C15",
+    ),
+    "C16": (
+        "exception-escape analysis (bottom-up over the call graph with try/except filtering through class MROs) + validate-before-use",
+        "For every click command the set of (exception class, origin) pairs that can leave it - explicit raises and the"
+        " content-triggered library exceptions of table T2, filtered through every enclosing try/except/suppress - must"
+        " lie within what click turns into a diagnostic; each other pair is a violation unless it is one of nine named,"
+        " reasoned infeasible origins whose side conditions are checked. Plus: parsed TOML values are type-checked"
+        " before being iterated/indexed, the per-file isolation handler is as broad as Exception, parse errors carry"
+        " or receive the file name. OS faults outside the modelled exceptions are not decided.",
+        "Trusted: ast, mypy's resolution and MROs, table T2. Known findings are keyed by exception and origin construct.",
+        "DESIGN.md §3 C16",
+    ),
 }
 
 PENDING_REASON = "check not implemented yet (build in progress; see DESIGN.md §7)"
